@@ -46,6 +46,8 @@ TStep ==
         /\ Finish(ConstructClause(e)) /\ UNCHANGED <<mean, dref>>
      \/ /\ e.ev = "construct" /\ e.kind = "moddir" /\ (ToModuleDir(e.src, e.naming) \/ ReloadModuleFile(e.src, e.naming))
         /\ Finish(ConstructClause(e)) /\ UNCHANGED <<mean, dref>>
+     \/ /\ e.ev = "construct" /\ e.kind \in {"wrapsrc", "wrapmix"} /\ WrapGiven(e.src, e.naming, e.kind)
+        /\ Finish(ConstructClause(e)) /\ UNCHANGED <<mean, dref>>
      \/ /\ e.ev = "construct" /\ e.kind = "wrap" /\ WrapModule(e.src, e.naming)
         /\ Finish(ConstructClause(e)) /\ UNCHANGED <<mean, dref>>
      \/ /\ e.ev = "collect" /\ Collect(e.t) /\ Finish("") /\ UNCHANGED <<mean, dref>>
